@@ -18,10 +18,10 @@ LEVEL = "exploration"
 TIERS = {"quick": {"runs": 2400, "wall_cap": 600}, "thorough": {"runs": 50000, "wall_cap": 3300}}
 RULE = (
     "each evaluation is one seeded data graph (<=12 triples, falsy and numeric literals, a blank node) held in 5 store configurations, 1-3 "
-    "generated queries (BGP, OPTIONAL(+FILTER), UNION, MINUS, FILTER, BIND, VALUES, sub-SELECT, GROUP BY/aggregates, DISTINCT, ORDER BY+LIMIT "
+    "generated queries (BGP, OPTIONAL(+FILTER), UNION, MINUS, FILTER incl. [NOT] EXISTS, BIND, VALUES incl. group-leading, sub-SELECT incl. local variables that reuse outer names, groups with their own FILTER/MINUS, GROUP BY/aggregates, DISTINCT, ORDER BY+LIMIT "
     "on a total key, property paths) each prepared once, and a seeded schedule that opens lazy result iterators of the prepared objects "
     "(same or different graphs, with or without initBindings), resumes them in interleaved order, cancels some, and asks for rewritten forms "
-    "(BGP permutation, union/join operand swap, consistent variable renaming, prefix respelling, initBindings vs VALUES) and for the other "
+    "(BGP permutation, union/join operand swap, consistent variable renaming, prefix respelling incl. two prefixes for one namespace and local-name escapes, initBindings vs VALUES) and for the other "
     "store configurations; every completed evaluation is compared as a multiset of rows with a freshly parsed evaluation in isolation; "
     "distinct = distinct trace digest; non-trivial = at least 2 evaluations of one prepared object were alive at the same time and at "
     "least 3 comparisons had non-empty answers"
